@@ -3,6 +3,7 @@ import PsV.Driver.C04
 import PsV.Driver.C16
 import PsV.Driver.Eval
 import PsV.Driver.C15
+import PsV.Driver.C12
 open PsV.Driver
 
 def stateless (f : List String → String) : IO Unit := do
@@ -12,7 +13,8 @@ def drivers : List (String × IO Unit) :=
   [("C04", stateless C04.handle),
    ("EV", Eval.run),
    ("C16", C16.run),
-   ("C15", stateless C15.handle)]
+   ("C15", stateless C15.handle),
+   ("C12", C12.run)]
 
 def main (args : List String) : IO UInt32 := do
   match args with
